@@ -18,11 +18,17 @@ Case line (kind `a2`), fields separated by `|`:
           `code_k` stands for the fresh code object)
   pool    ids are positions in `names`; 0 = Uninitialized, 1 = Undefined, 2 = None.  eq/ne are the REAL
           `bool(a == b)` / `bool(a != b)` outcomes (y / n / r = raises), computed from the objects
-  handlers H behaviour per handler id (o ok, r raises, k<n> raises at the n-th handler call of the case,
+  route   R=c constructor (default) · s explicit __setstate__(__getstate__()) of an object built with the keyword ·
+          y copy.copy of it (both restore through __setstate__) · l clone_traits(copy="shallow"): the `ctor v`
+          op is then the state-restoring assignment
+  handlers DH=1: NO exception handler is pushed (the library's default ones run; logging silenced) ·
+          H behaviour per handler id (o ok, r raises, e<j> raises variant j of a richer exception set — RuntimeError
+          family with non-string / empty args, other classes, no args —, k<n> raises at the n-th handler call of the case,
           x / x<n> unregisters itself) · RL/RO re-raising exception handlers on the legacy / observe stacks ·
           S static handlers in class order (a `_anytrait_changed`, c `_x_changed`, f `_x_fired`)
   ops     ird h [c|f] / iro h [c|f] (decorated @on_trait_change / @observe methods, all ird before all iro, first;
-          with c / f the method carries the magic name _x_changed / _x_fired) · ctor v (constructor keyword;
+          with c / f the method carries the magic name _x_changed / _x_fired) · prd h / pro h (the same decorators
+          with post_init=True: attached after the initial state is set; right after `ctor`) · ctor v (constructor keyword;
           next) · set v · del · get · setq v · rd h p / ud h · ra h p / ua h (anytrait) · ro h / uo h
 
 Output, per op:  ok|err <Exc> v=<read value> s=<__dict__ slot> i=<instance trait exists> n=<len tnotifiers>,<len
@@ -82,7 +88,11 @@ def pool_spec(names):
 
 def mk_case(T, names, H, RL, RO, S, ops):
     tf = " ".join("%s=%s" % (k, T[k]) for k in ("K", "C", "O", "Q", "P", "V", "VK", "D", "Z", "D2", "TT"))
+    if T.get("R", "c") != "c":
+        tf += " R=" + T["R"]
     hf = "H=%s RL=%d RO=%d S=%s" % (",".join(H) or "o", RL, RO, ",".join(S) or "-")
+    if T.get("DH"):
+        hf += " DH=1"
     return "a2|%s|%s|%s|%s" % (tf, pool_spec(names), hf, ";".join(ops))
 
 
@@ -117,6 +127,14 @@ def corpus():
     for c in "012":
         out.append(mk_case(base_T(C=c, O="1", P="o", TT="expr", D="3", V="T,T,T,9,9,9,9,T,T,T"), en, ["o", "o", "o", "o"], 0, 0,
                            ["a0", "c1"], ["rd 2 0", "ro 3", "set 4", "set 5", "set 6", "set 7", "set 8", "del", "get"]))
+    # the library's default exception handlers, a handler raising exceptions whose first argument is no string
+    for j in (0, 1, 2, 3, 7, 8):
+        out.append(mk_case(base_T(C="0", DH=1), names, ["o", "e%d" % j, "o", "o"], 0, 0, ["c0"],
+                           ["rd 1 0", "ro 2", "rd 3 0", "set 3", "set 4"]))
+    # post_init decorators on every construction route
+    for r in "csy":
+        out.append(mk_case(base_T(C="0", R=r), names, ["o"] * 5, 0, 0, ["c0"],
+                           ["ird 1", "iro 2", "ctor 3", "prd 3", "pro 4", "set 4", "set 4", "del"]))
     # raising handlers, self-removing handlers, re-raise
     out.append(mk_case(base_T(C="0"), names, ["r", "x", "r", "o"], 0, 0, ["c0"],
                        ["rd 1 0", "ro 2", "ra 3 0", "set 3", "set 3", "set 4"]))
@@ -243,14 +261,29 @@ def random_case(rng):
             hid += 1
     rest = list(range(hid, nh))
     for h in rest:
-        roles[h] = rng.choice(["dyn", "dyn", "obs", "obs", "any", "idyn", "iobs"])
+        roles[h] = rng.choice(["dyn", "dyn", "obs", "obs", "any", "idyn", "iobs", "pdyn", "pobs"])
+    # the library's default exception handlers (nothing pushed) in a share of the cases, with a richer set of
+    # exceptions raised by the handlers
+    DH = rng.random() < 0.15
+    T["DH"] = 1 if DH else 0
     H = []
     for h in range(nh):
         r = rng.random()
-        H.append("o" if r < 0.7 else "r" if r < 0.85 else "k%d" % rng.randint(0, 6) if r < 0.92
-                 else rng.choice(["x", "x%d" % rng.randint(0, 4)]))
-    RL = 1 if rng.random() < 0.04 else 0
-    RO = 1 if rng.random() < 0.04 else 0
+        if DH:
+            H.append("o" if r < 0.45 else "e%d" % rng.randrange(A.N_RICH) if r < 0.9 else "r")
+        else:
+            H.append("o" if r < 0.66 else "r" if r < 0.78 else "e%d" % rng.randrange(A.N_RICH) if r < 0.85
+                     else "k%d" % rng.randint(0, 6) if r < 0.92 else rng.choice(["x", "x%d" % rng.randint(0, 4)]))
+    RL = 1 if (not DH and rng.random() < 0.04) else 0
+    RO = 1 if (not DH and rng.random() < 0.04) else 0
+    if RL or RO:
+        H = ["r" if b[0] == "e" else b for b in H]        # the exception class would show: keep it RuntimeError
+    has_post = any(roles[h] in ("pdyn", "pobs") for h in rest)
+    if has_post:
+        RL = RO = 0
+        T["VK"] = "-"
+        if T["P"].startswith("k"):
+            T["P"] = "o"
     ops = []
     # decorated methods may carry a magic name (_x_changed / _x_fired) when no static handler uses it
     free_magic = [m for m in ("c", "f") if not any(x[0] == m for x in S)]
@@ -264,8 +297,20 @@ def random_case(rng):
     for h in rest:
         if roles[h] == "iobs":
             ops.append("iro %d" % h + (" " + free_magic.pop() if free_magic and rng.random() < 0.8 else ""))
-    if rng.random() < 0.2:
-        ops.append("ctor %d" % rng.choice(valid))
+    accepted = [v for v in valid if tab is None or tab[v] not in ("T", "E")]
+    if rng.random() < (0.7 if has_post else 0.2) and (accepted or not has_post):
+        cv = rng.choice(accepted if has_post else valid)
+        ops.append("ctor %d" % cv)
+        # construction route: the keyword assignment may also be the state restored by __setstate__ / clone_traits
+        if (cv in accepted and T["K"] == "T" and (tab is None or tt in ("int", "str")) and RL == 0 and RO == 0 and T["P"] == "-"
+                and T["O"] == "0" and not any(b[0] == "x" for b in H) and rng.random() < 0.6):
+            T["R"] = rng.choice(["s", "y"] + (["l"] if tt in ("int", "str") else []))
+    for h in rest:
+        if roles[h] == "pdyn":
+            ops.append("prd %d" % h)
+    for h in rest:
+        if roles[h] == "pobs":
+            ops.append("pro %d" % h)
     pending = [h for h in rest if roles[h] in ("dyn", "obs", "any")]
     rng.shuffle(pending)
     # most registrations early, in random order
@@ -292,12 +337,13 @@ def random_case(rng):
             if rng.random() < 0.5:
                 ops.append(reg_op(rng, role, h))
             else:
-                ops.append({"dyn": "ud %d", "idyn": "ud %d", "obs": "uo %d", "iobs": "uo %d", "any": "ua %d"}[role] % h)
+                ops.append({"dyn": "ud %d", "idyn": "ud %d", "pdyn": "ud %d", "obs": "uo %d", "iobs": "uo %d",
+                            "pobs": "uo %d", "any": "ua %d"}[role] % h)
     return mk_case(T, names, H, RL, RO, S, ops)
 
 
 def reg_op(rng, role, h):
-    if role in ("dyn", "idyn"):
+    if role in ("dyn", "idyn", "pdyn"):
         return "rd %d %d" % (h, 1 if rng.random() < 0.2 else 0)
     if role == "any":
         return "ra %d %d" % (h, 1 if rng.random() < 0.2 else 0)
@@ -356,6 +402,8 @@ def run_impl(case):
     for o in ops:
         if o[0] in ("rd", "ud", "ird"):
             roles.setdefault(int(o[1]), "idyn" if o[0] == "ird" else "dyn")
+        elif o[0] in ("prd", "pro"):
+            pass
         elif o[0] in ("ra", "ua"):
             roles.setdefault(int(o[1]), "any")
         elif o[0] in ("ro", "uo", "iro"):
@@ -368,6 +416,15 @@ def run_impl(case):
         if o[0] == "iro":
             roles[int(o[1])] = "iobs"
             meth[int(o[1])] = "_obs_%s" % o[1] if len(o) < 3 else {"c": "_x_changed", "f": "_x_fired"}[o[2]]
+        if o[0] == "prd":
+            roles[int(o[1])] = "idyn"        # same mechanism, attached later
+            meth[int(o[1])] = "_pdyn_%s" % o[1]
+        if o[0] == "pro":
+            roles[int(o[1])] = "iobs"
+            meth[int(o[1])] = "_pobs_%s" % o[1]
+    post_h = {int(o[1]) for o in ops if o[0] in ("prd", "pro")}
+    DH = Hf.get("DH") == "1"
+    route = T.get("R", "c")
     holder = {}
     BARE = object()     # marker: a decorated observer was called with something that is not a change event
 
@@ -376,6 +433,9 @@ def run_impl(case):
         log.append((h, old, new))
         act = A.beh_action(H[h] if h < len(H) else "o", n)
         if act == "raise":
+            spec = H[h] if h < len(H) else "o"
+            if spec[0] == "e":
+                raise A.rich_exception(int(spec[1:]))
             raise A.HandlerError("handler %d raises" % h)
         if act == "remove" and roles.get(h) != "static":
             removed.append(h)
@@ -470,6 +530,33 @@ def run_impl(case):
     for o in ops:
         if o[0] == "iro":
             ns[meth[int(o[1])]] = observe("x")(mk_iobs(int(o[1])))
+    for o in ops:
+        if o[0] == "prd":
+            ns[meth[int(o[1])]] = on_trait_change("x", post_init=True)(mk_idyn(int(o[1])))
+    for o in ops:
+        if o[0] == "pro":
+            ns[meth[int(o[1])]] = observe("x", post_init=True)(mk_iobs(int(o[1])))
+
+    # the state of the object at the moment the initial state has been set and the post_init handlers are about
+    # to be attached (constructor, __setstate__ and clone_traits all call these two, in this order)
+    def _snap(self):
+        if holder.get("building") or "snap" in holder:
+            return
+        tr = self._trait("x", 0)
+        tn = tr._notifiers(False)
+        on = self._notifiers(False)
+        holder["snap"] = (self.__dict__.get("x", A), 1 if "x" in self._instance_traits() else 0,
+                          None if tn is None else len(tn), None if on is None else len(on))
+
+    def _post_init_trait_listeners(self):
+        _snap(self)
+        HasTraits._post_init_trait_listeners(self)
+
+    def _post_init_trait_observers(self):
+        _snap(self)
+        HasTraits._post_init_trait_observers(self)
+    ns["_post_init_trait_listeners"] = _post_init_trait_listeners
+    ns["_post_init_trait_observers"] = _post_init_trait_observers
     hits = []
     if T["Z"] == "i":
         ns["x"] = trait
@@ -502,14 +589,31 @@ def run_impl(case):
     ctor = ops[i0] if i0 < len(ops) and ops[i0][0] == "ctor" else None
     registered = {}          # spec-level registration count per handler
     for h, role in roles.items():
-        registered[h] = 1 if role in ("static", "idyn", "iobs") else 0
-    with A.ExcHandlers(RL, RO):
+        registered[h] = 1 if (role in ("static", "idyn", "iobs") and h not in post_h) else 0
+    with A.ExcHandlers(RL, RO, default=DH):
         # ------- __init__ (decorated handlers are attached here; the constructor keyword is assigned here)
         before_log = 0
         exc = None
         before_slot = obj.__dict__.get("x", A)
         try:
-            if ctor is not None:
+            if ctor is not None and route != "c":
+                # build a source object with that state, then restore it by the requested route
+                import copy
+                holder["building"] = True
+                src = cls(x=pool.objs[int(ctor[1])])
+                holder["building"] = False
+                del log[:]
+                del removed[:]
+                tags.add("route:" + route)
+                if route == "s":
+                    obj.__setstate__(src.__getstate__())
+                elif route == "y":
+                    obj = copy.copy(src)
+                    holder["obj"] = obj
+                else:
+                    obj = src.clone_traits(copy="shallow")
+                    holder["obj"] = obj
+            elif ctor is not None:
                 obj.__init__(x=pool.objs[int(ctor[1])])
             else:
                 obj.__init__()
@@ -542,6 +646,10 @@ def run_impl(case):
             tr = obj._trait("x", 0)
             tn = tr._notifiers(False)
             on = obj._notifiers(False)
+            if op[0] == "ctor" and "snap" in holder:
+                slot, it, ltn, lon = holder["snap"]      # before the post_init handlers were attached
+                tn = None if ltn is None else [0] * ltn
+                on = None if lon is None else [0] * lon
             calls = ",".join("%d:%s>%s" % (h, pool.show(o), pool.show(n)) for h, o, n in log[log0:])
             posts = ",".join(pool.show(v) for v in state["post"][post0:])
             return "%s v=%s s=%s i=%d n=%s,%s c=[%s] p=[%s]" % (
@@ -553,7 +661,9 @@ def run_impl(case):
         for idx, op in enumerate(ops):
             k = op[0]
             tags.add("op:" + k)
-            if k in ("ird", "iro"):
+            if k in ("prd", "pro"):
+                registered[int(op[1])] = 1
+            if k in ("ird", "iro", "prd", "pro"):
                 # attached inside __init__; the model registers them one by one before anything else:
                 # report the state the model has after this registration, which the real object only
                 # reaches at the end of __init__ -> compare counts only at the last of them
@@ -747,15 +857,18 @@ def _fill_init(res, ops, S):
     what the model prints after each of them."""
     out = []
     cnt = len(S)
-    first = True
+    slot = "-"
     for o, op in zip(res, ops):
         if o is None:
             # every registration goes through _trait(name, 2): instance trait exists, list = statics + so far
             cnt += 1
-            out.append("ok v=- s=- i=1 n=%d,- c=[] p=[]" % cnt)
-            first = False
+            out.append("ok v=- s=%s i=1 n=%d,- c=[] p=[]" % (slot, cnt))
         else:
             out.append(o)
+            if op[0] == "ctor":
+                slot = o.split(" s=")[1].split(" ")[0]
+                ntn = o.split(" n=")[1].split(",")[0]      # a handler may have unregistered itself meanwhile
+                cnt = 0 if ntn == "-" else int(ntn)
     return out
 
 
